@@ -230,6 +230,10 @@ func (u *Unit) typeFacts(v *Term, t types.Type) *Term {
 		return And(Ge(slen(v), IntLit(0)), Ge(soff(v), IntLit(0)), Ge(scap(v), slen(v)))
 	case SPtr:
 		return Ge(pidx(v), IntLit(0))
+	case SStr:
+		return Ge(App(SInt, "strlen", v), IntLit(0))
+	case SReal:
+		return True
 	}
 	return True
 }
@@ -348,13 +352,16 @@ func elemMapName(s Sort) string { return "E!" + sanitize(string(s)) }
 // subPtr: pointer to the nested struct value field f of the struct at p.
 func (u *Unit) subPtr(structT types.Type, field string, p *Term) *Term {
 	fn := "sub!" + namedKey(structT) + "." + field
-	first := !u.ctx.declared[sanitize(fn)]
 	name := u.ctx.Func(fn, []Sort{SRef}, SRef)
-	if first {
-		inv := u.ctx.Func(fn+"!inv", []Sort{SRef}, SRef)
-		u.ctx.Axiom(&Term{fmt.Sprintf("(forall ((r Ref)) (! (and (= (birth (%s r)) (birth r)) (= (%s (%s r)) r) (not (= (%s r) nilref))) :pattern ((%s r))))", name, inv, name, name, name), SBool})
+	inv := u.ctx.Func(fn+"!inv", []Sort{SRef}, SRef)
+	base := parr(p)
+	key := "subax!" + name + "!" + base.S
+	if !u.ctx.declared[key] {
+		// ground instance of: birth(sub r) = birth r, sub injective, sub r != nil
+		u.ctx.declared[key] = true
+		u.ctx.Axiom(&Term{fmt.Sprintf("(and (= (birth (%s %s)) (birth %s)) (= (%s (%s %s)) %s) (not (= (%s %s) nilref)))", name, base.S, base.S, inv, name, base.S, base.S, name, base.S), SBool})
 	}
-	return mkptr(App(SRef, name, parr(p)), pidx(p))
+	return mkptr(App(SRef, name, base), pidx(p))
 }
 
 // loadVal loads a value of Go type t stored at pointer p (struct pointer /
